@@ -58,7 +58,7 @@ func frontDriver(seed uint64, n int, outV, outJSON string, args []string) {
 		}
 		runC01(e, n)
 	case "c02":
-		e.rep.Rule = "blobs (random/zeros/text; sizes 0,1,100,4095..4097, rarely around 1MiB and 2MiB+3) stored through a write path, then read through every read path (HTTP GET +-Accept-Encoding: zstd, HEAD, BatchReadBlobs identity/zstd, ByteStream.Read blobs/compressed-blobs at offsets {0,1,n-1,n,n+1} x read_limit {0,1,rest-1,rest,rest+1}, GetTree, GetActionResult with inlining) x storage mode x zstd implementation, plus the empty blob on every path from an EMPTY cache; zstd replies decoded by both decoders; non-trivial = offset or limit non-zero, or zstd reply; distinct = distinct (path, size class, offset class, limit class, mode, outcome)"
+		e.rep.Rule = "blobs (random/zeros/text; sizes 0,1,100,4095..4097, rarely around 1MiB and 2MiB+3) stored through a write path, then read through every read path (HTTP GET +-Accept-Encoding: zstd, HEAD, BatchReadBlobs identity/zstd, ByteStream.Read blobs/compressed-blobs at offsets {0,1,n-1,n,n+1} x read_limit {0,1,rest-1,rest,rest+1}, GetTree, GetActionResult with inlining) x storage mode x zstd implementation, plus the empty blob on every path from an EMPTY cache, plus (in every run) one restart history per direction: a directory written under one storage mode, re-opened under the other, extended there, and re-opened under the first again, every blob (1, 4095..4097, >64 KiB, >1 MiB) read through every path after each start, and blobs of 128 KiB..300 KiB through the buffering paths; zstd replies decoded by both decoders; non-trivial = offset or limit non-zero, or zstd reply; distinct = distinct (path, size class, offset class, limit class, mode, outcome)"
 		for _, mode := range []string{"zstd", "uncompressed"} {
 			for _, impl := range []string{"go", "cgo"} {
 				e.fx = append(e.fx, newFixture(mode, impl, bigLimit))
